@@ -411,7 +411,21 @@ func genKv(r *rand.Rand, tier string) kvInput {
 			if cn == "s1.c2" {
 				h = 0 // only the dropping handle uses the droppable collection (stale per-handle cache otherwise)
 			}
-			in.Ops = append(in.Ops, Step{Kind: "kv", Coll: cn, Key: pick(r, hot), Handle: h, Op: genKOp(r), Clock: next()})
+			st := Step{Kind: "kv", Coll: cn, Key: pick(r, hot), Handle: h, Op: genKOp(r), Clock: next()}
+			if windowed(st.Op.Kind) && r.Intn(3) == 0 {
+				// another call on the same key inside this call's read-to-write window
+				if st.Op.Kind == "WriteUpdateWithXattrs" {
+					// its callback's result is validated against the version it was shown and refused without a
+					// retry, so only calls that leave the CAS alone keep the pair sequential
+					st.Nested = &KOp{Kind: pick(r, []string{"Touch", "GetAndTouchRaw"}), Exp: genExp(r)}
+				}
+				for j := 0; j < 8 && st.Nested == nil; j++ {
+					if n := genKOp(r); n.Cb == nil {
+						st.Nested = n
+					}
+				}
+			}
+			in.Ops = append(in.Ops, st)
 		}
 	}
 	return in
